@@ -1,6 +1,6 @@
 (* C05 - UDP fragmentation is all-or-nothing and size-bounded.
    Property theorems only; every proof is `exact <lemma>` from proof/C05_Frag.v. *)
-From Hy Require Import model.C05_Frag proof.C05_Frag.
+From Hy Require Import model.C05_Frag model.C05_Send proof.C05_Frag proof.C05_Send.
 From Coq Require Import ZArith.
 Local Open Scope N_scope.
 
@@ -73,3 +73,81 @@ Print Assumptions C05_wire_roundtrip.
 Theorem C05_frag_old_refuted : exists m maxSize, is_panic (frag_old m maxSize) = true.
 Proof. exact frag_old_refuted. Qed.
 Print Assumptions C05_frag_old_refuted.
+
+(* ---------------- send paths (udpConn.Send, sendMessageAutoFrag) ---------------- *)
+
+(* The send path never panics, whatever the connection does at each SendMessage call. *)
+Theorem C05_send_total : forall buflen env newpid sid a d,
+  exists evs r, send buflen env newpid sid a d = Ok (evs, r).
+Proof. exact send_total. Qed.
+Print Assumptions C05_send_total.
+
+(* Complete shape of one send, for EVERY behaviour of the connection (env i = what it does at the i-th call):
+   the first call is the whole, unchanged message; only a too-large refusal of THAT call, reporting limit L,
+   leads to fragmentation, and what follows is then a prefix of frag(message with the fresh id, L) - so every
+   fragment handed to the connection fits the limit reported for this very message (nothing is split against
+   a limit learnt earlier); each call is answered by the connection's behaviour at that call; the loop stops at
+   the first error and returns it; nil means that all fragments were handed in. *)
+Theorem C05_send_whole_first_then_fresh_limit : forall buflen env newpid sid a d evs r,
+  send buflen env newpid sid a d = Ok (evs, r) ->
+  let m := whole sid 0 a d in
+  let o := io_send buflen (env 0%nat) m in
+  exists rest, evs = (m, o) :: rest /\
+  ((forall L, o <> OTooLarge L) -> rest = [] /\ r = ret_of o) /\
+  (forall L, o = OTooLarge L ->
+     env 0%nat = RLim L /\ (L < Z.of_nat (size m))%Z /\
+     exists fs, frag (whole sid newpid a d) L = Ok fs /\
+       (exists n, map fst rest = firstn n fs) /\
+       Forall (fun f => (Z.of_nat (size f) <= L)%Z) (map fst rest) /\
+       (forall i f oi, nth_error rest i = Some (f, oi) -> oi = io_send buflen (env (S i)) f) /\
+       (forall i f oi, nth_error rest i = Some (f, oi) -> (S i < length rest)%nat -> ret_of oi = SNil) /\
+       (r = SNil -> map fst rest = fs) /\
+       (r <> SNil -> exists f oi, nth_error rest (length rest - 1) = Some (f, oi) /\ ret_of oi = r)).
+Proof. exact send_shape. Qed.
+Print Assumptions C05_send_whole_first_then_fresh_limit.
+
+(* Every step of every history is an independent send: the send path carries nothing (no remembered limit,
+   no remembered id) from one message to the next. *)
+Theorem C05_send_hist_independent : forall buflen sid steps rs,
+  send_hist buflen sid steps = Ok rs ->
+  length rs = length steps /\
+  forall i s, nth_error steps i = Some s ->
+    exists r, nth_error rs i = Some r /\
+      send buflen (st_env s) (st_pid s) sid (st_addr s) (st_data s) = Ok r.
+Proof. exact send_hist_independent. Qed.
+Print Assumptions C05_send_hist_independent.
+
+(* One send while the limit stays L: nil is returned and the far side (a Defragger in any state that is not
+   in the middle of the same packet id) emits exactly [delivered]: the message, byte-identical, iff it fits the
+   sender's buffer and L whole or in <= 255 fragments; otherwise nothing. *)
+Theorem C05_send_delivers : forall buflen env L newpid sid a d d0,
+  (forall i, env i = RLim L) ->
+  (d_pid d0 <> newpid \/ d_frags d0 = []) ->
+  exists evs d', send buflen env newpid sid a d = Ok (evs, SNil) /\
+    feed_all d0 (accepted evs) = Ok (d', delivered buflen sid L (mkStep env newpid a d)) /\
+    (d' = d0 \/ d_pid d' = newpid).
+Proof. exact send_delivers. Qed.
+Print Assumptions C05_send_delivers.
+
+(* Histories: the limit is arbitrary from one send to the next (constant, growing, shrinking, oscillating)
+   and stays put during each send; the fresh ids are pairwise distinct.  Every send returns nil and ONE
+   Defragger fed with everything the connection accepted emits exactly the messages that fit the limit in
+   force when they were sent, in order, byte-identical - and nothing else. *)
+Theorem C05_send_hist_delivers : forall buflen sid (ls : list (Z * sstep)) d0,
+  (forall L s, In (L, s) ls -> forall i, st_env s i = RLim L) ->
+  NoDup (map (fun p => st_pid (snd p)) ls) ->
+  (d_frags d0 = [] \/ ~ In (d_pid d0) (map (fun p => st_pid (snd p)) ls)) ->
+  exists rs d', send_hist buflen sid (map snd ls) = Ok rs /\
+    Forall (fun r => snd r = SNil) rs /\
+    feed_all d0 (hist_accepted rs) = Ok (d', hist_delivered buflen sid ls).
+Proof. exact send_hist_delivers. Qed.
+Print Assumptions C05_send_hist_delivers.
+
+(* Non-vacuity: a concrete history (limit 30, 17, 13, 60, 14, 14) - split in 3, split in 10 after the limit
+   shrank, discarded, whole, 255 fragments, discarded (256 needed). *)
+Theorem C05_send_hist_example : exists rs d',
+  send_hist 4096 7 (map snd ex_hist) = Ok rs /\
+  map (fun r => length (fst r)) rs = [4; 11; 1; 1; 256; 1]%nat /\
+  feed_all d_init (hist_accepted rs) = Ok (d', hist_delivered 4096 7 ex_hist).
+Proof. exact ex_hist_run. Qed.
+Print Assumptions C05_send_hist_example.
